@@ -63,6 +63,7 @@ func runHNSWHistory(r *rand.Rand, p hnswParams, o hnswOpts, t *Trace) *Case {
 	removed := map[uint32]bool{}
 	nextID := uint32(1)
 	var forced []float32 // query of the next search (the vector of a just-removed entry point)
+	efDefault := 0       // > 0 once SetEfSearch has replaced the index's search-time ef
 	dump := func() {
 		st := comet.VerifHNSWSnapshot(idx)
 		ops = append(ops, func(c *Case) { dumpHNSW(c, st) })
@@ -84,6 +85,12 @@ func runHNSWHistory(r *rand.Rand, p hnswParams, o hnswOpts, t *Trace) *Case {
 		}
 		if forced != nil {
 			x = 99 // the search that follows the removal of a whole neighbourhood
+		}
+		if r.Intn(25) == 0 {
+			// SetEfSearch: from now on a search that names no ef of its own uses this one
+			efDefault = []int{p.m, 2 * p.m, 20, 200, len(resident) + 5}[r.Intn(5)]
+			idx.SetEfSearch(efDefault)
+			t.Stat("hnsw.set_ef_search")
 		}
 		switch {
 		case x < 40: // add
@@ -335,8 +342,12 @@ func runHNSWHistory(r *rand.Rand, p hnswParams, o hnswOpts, t *Trace) *Case {
 			if pan {
 				code = 12
 			}
+			efEmit := ef
+			if ef <= 0 && efDefault > 0 {
+				efEmit = efDefault // what "the index's own ef" means after SetEfSearch
+			}
 			ops = append(ops, func(c *Case) {
-				c.N(4).Vecs(qs).U32s(nodes).U32s(docids).N(k).F32(thr).N(aggz).N(cutoff).N(0).N(ef)
+				c.N(4).Vecs(qs).U32s(nodes).U32s(docids).N(k).F32(thr).N(aggz).N(cutoff).N(0).N(efEmit)
 				c.N(code).N(len(res))
 				for _, x := range res {
 					c.U(uint64(x.Node.ID())).F32(x.Score)
